@@ -100,7 +100,8 @@ func NewParser(srcPath, dstPath string) (*Parser, error) {
 		return nil, logger.Errorf("%v: %v", srcPath, parseErr)
 	}
 	return &Parser{
-		srcPath: fileSet.Position(fileSrc.Pos()).Filename,
+		// The name of the file itself: a //line directive renames positions, not files.
+		srcPath: fileSet.File(fileSrc.Pos()).Name(),
 		fset:    fileSet,
 		file:    fileSrc,
 		pkg:     pkgs[0],
